@@ -80,3 +80,63 @@ def getters(facts):
         if e.get("k") == "field" and hir.is_local(e["e"], "self"):
             out[path] = int(e["name"])
     return out
+
+
+# ---------------------------------------------------------------------------------------------------------------------
+# effects expressions as bit transformers
+
+EFFECT_BITS = ["BOLD", "DIMMED", "ITALIC", "UNDERLINE", "DOUBLE_UNDERLINE", "CURLY_UNDERLINE", "DOTTED_UNDERLINE", "DASHED_UNDERLINE",
+               "BLINK", "INVERT", "HIDDEN", "STRIKETHROUGH"]
+FULL = (1 << len(EFFECT_BITS)) - 1
+
+
+def effects_masks(e, var=None):
+    """An Effects-valued expression as a per-bit transformer of the old value of `var`: (keep, one) — a bit of the result is the
+    old bit where `keep` is set, 1 where `one` is set and 0 elsewhere.  `a | b`, `a.insert(b)`, `a - b`, `a.remove(b)`,
+    `a.set(b, true/false)`, `Effects::new()`, `Effects::default()`, `PLAIN` and the named constants are understood; anything
+    else raises Unrecognised."""
+    import hirpp
+    e = hir.simp(e)
+    k = e.get("k")
+    p = hir.def_path(e)
+    if p and p.startswith(EFF + "::"):
+        n = p.split("::")[-1]
+        if n == "PLAIN":
+            return (0, 0)
+        if n in EFFECT_BITS:
+            return (0, 1 << EFFECT_BITS.index(n))
+    if k == "local" and var is not None and e["name"] == var:
+        return (FULL, 0)
+    if k == "call":
+        c = hir.callee(e)
+        if c in (EFF + "::new", EFF + "::clear") or (hir.is_call(e, "Default::default") and e.get("ty") == EFF) or \
+                c == f"<{EFF} as core::default::Default>::default":
+            return (0, 0)
+        if c in (EFF + "::insert",) or (hir.is_call(e, "BitOr>::bitor", "bitor") and e.get("ty") == EFF):
+            a, b = effects_masks(e["args"][0], var), effects_masks(e["args"][1], var)
+            one = a[1] | b[1]
+            return ((a[0] | b[0]) & ~one, one)
+        if c in (EFF + "::remove",) or (hir.is_call(e, "Sub>::sub", "sub") and e.get("ty") == EFF):
+            a, b = effects_masks(e["args"][0], var), effects_masks(e["args"][1], var)
+            if b[0]:
+                raise Unrecognised("removal of a non-constant effect set")
+            return (a[0] & ~b[1], a[1] & ~b[1])
+        if c == EFF + "::set":
+            a, b = effects_masks(e["args"][0], var), effects_masks(e["args"][1], var)
+            on = hir.lit_val(e["args"][2])
+            if b[0] or not isinstance(on, bool):
+                raise Unrecognised("set() with a non-constant argument")
+            return ((a[0] & ~b[1]), (a[1] | b[1])) if on else (a[0] & ~b[1], a[1] & ~b[1])
+    if k == "bin" and e.get("op") in ("BitOr", "Sub"):
+        a, b = effects_masks(e["l"], var), effects_masks(e["r"], var)
+        if e["op"] == "BitOr":
+            one = a[1] | b[1]
+            return ((a[0] | b[0]) & ~one, one)
+        if b[0]:
+            raise Unrecognised("removal of a non-constant effect set")
+        return (a[0] & ~b[1], a[1] & ~b[1])
+    raise Unrecognised(f"effects expression `{hirpp.expr(e)[:70]}` (line {e.get('ln', '?')})")
+
+
+def mask_names(m):
+    return [n for i, n in enumerate(EFFECT_BITS) if m >> i & 1]
